@@ -8,7 +8,7 @@
 ;;@ axiom STR-joinseg-empty trigger=joinseg :: T-STR: joining an empty range of pieces gives the empty string
 (assert (forall ((A (Array Int Str)) (p Int) (q Int)) (! (=> (<= q p) (= (joinseg A p q) eps)) :pattern ((joinseg A p q)))))
 ;;@ axiom STR-joinseg-one trigger=joinseg :: T-STR: joining a one-element range gives that element
-(assert (forall ((A (Array Int Str)) (p Int)) (! (= (joinseg A p (+ p 1)) (select A p)) :pattern ((joinseg A p (+ p 1))))))
+(assert (forall ((A (Array Int Str)) (p Int) (q Int)) (! (=> (= q (+ p 1)) (= (joinseg A p q) (select A p))) :pattern ((joinseg A p q)))))
 ;;@ axiom STR-joinseg-split optin trigger=joinseg,cat :: T-STR: consecutive ranges concatenate: join(A,p,q)+join(A,q,r) = join(A,p,r)
 (assert (forall ((A (Array Int Str)) (p Int) (q Int) (r Int)) (! (=> (and (<= p q) (<= q r)) (= (cat (joinseg A p q) (joinseg A q r)) (joinseg A p r))) :pattern ((joinseg A p q) (joinseg A q r)))))
 ;;@ axiom STR-piece-is-char trigger=pieces,clen :: T-STR: every piece of a string is a one-character string
